@@ -286,6 +286,31 @@ func lenAtLeast(w *World, x *T, n int64, p *Path) (bool, string) {
 			}
 		}
 	}
+	// the same tests written on len(x) + d  (last := len(x) - 1; if last >= 0 ...)
+	lenPlus := func(t *T) (int64, bool) {
+		l := linearOf(t)
+		if len(l.Atom) != 1 {
+			return 0, false
+		}
+		for k, at := range l.Atom {
+			if l.Coef[k] == 1 && isLenOf(at, x) {
+				return l.Const, true
+			}
+		}
+		return 0, false
+	}
+	for _, cd := range p.Conds {
+		a := cd.Atom
+		if a.Op != "lt" {
+			continue
+		}
+		if d, ok := lenPlus(a.A[0]); ok && a.A[1].IsConst() && !cd.Val && a.A[1].C-d >= n {
+			return true, fmt.Sprintf("!(len%+d < %d)", d, a.A[1].C)
+		}
+		if d, ok := lenPlus(a.A[1]); ok && a.A[0].IsConst() && cd.Val && a.A[0].C-d+1 >= n {
+			return true, fmt.Sprintf("%d < len%+d", a.A[0].C, d)
+		}
+	}
 	// HasPrefix(x or ToLower(x), lit): every rune is at least one byte and ToLower maps runes one to one
 	extraNL := int64(0)
 	if endsWithNewline(x, p) {
@@ -547,6 +572,15 @@ func dischargeBounds(w *World, c *simCtx, fn *ssa.Function, p *Path, e *Event) (
 	}
 	// generic guards -------------------------------------------------------
 	ix := stripConv(idx)
+	// j := slices.Index(y, v); j >= 0  indexes y itself or a slice made with len(y)
+	if ix.Op == "call" && strings.HasPrefix(ix.S, "slices.Index") && len(ix.A) >= 1 {
+		found := hasCond(p, func(a *T, v bool) bool { return a.Op == "lt" && !v && sameTerm(a.A[0], ix) && a.A[1].IsConstVal(0) })
+		b := stripConv(base)
+		sameLen := sameTerm(b, ix.A[0]) || (b.Op == "makeslice" && isLenOf(b.A[0], ix.A[0]))
+		if found && sameLen {
+			return true, "slices.Index(y, _) >= 0 tested: a position inside y, and x has len(y) elements"
+		}
+	}
 	if ix.IsConst() {
 		if ix.C < 0 {
 			return false, "negative constant index"
